@@ -585,6 +585,31 @@ macro_rules! impl_rem_assign_scalar {
     }
 }
 
+// For signed scalars the divisor is narrowed to the *unsigned* counterpart, so that a
+// divisor equal to `|MIN|` is not mistaken for one that exceeds every scalar value.
+macro_rules! impl_rem_assign_signed_scalar {
+    ($scalar:ty, $to_unsigned:ident) => {
+        forward_val_assign_scalar!(impl RemAssign for BigUint, $scalar, rem_assign);
+        impl RemAssign<&BigUint> for $scalar {
+            #[inline]
+            fn rem_assign(&mut self, other: &BigUint) {
+                *self = match other.$to_unsigned() {
+                    None => *self,
+                    Some(0) => panic!("attempt to divide by zero"),
+                    Some(v) => {
+                        let r = (self.unsigned_abs() % v) as $scalar;
+                        if *self < 0 {
+                            r.wrapping_neg()
+                        } else {
+                            r
+                        }
+                    }
+                };
+            }
+        }
+    };
+}
+
 // we can scalar %= BigUint for any scalar, including signed types
 impl_rem_assign_scalar!(u128, to_u128);
 impl_rem_assign_scalar!(usize, to_usize);
@@ -592,12 +617,12 @@ impl_rem_assign_scalar!(u64, to_u64);
 impl_rem_assign_scalar!(u32, to_u32);
 impl_rem_assign_scalar!(u16, to_u16);
 impl_rem_assign_scalar!(u8, to_u8);
-impl_rem_assign_scalar!(i128, to_i128);
-impl_rem_assign_scalar!(isize, to_isize);
-impl_rem_assign_scalar!(i64, to_i64);
-impl_rem_assign_scalar!(i32, to_i32);
-impl_rem_assign_scalar!(i16, to_i16);
-impl_rem_assign_scalar!(i8, to_i8);
+impl_rem_assign_signed_scalar!(i128, to_u128);
+impl_rem_assign_signed_scalar!(isize, to_usize);
+impl_rem_assign_signed_scalar!(i64, to_u64);
+impl_rem_assign_signed_scalar!(i32, to_u32);
+impl_rem_assign_signed_scalar!(i16, to_u16);
+impl_rem_assign_signed_scalar!(i8, to_u8);
 
 impl Rem<u64> for BigUint {
     type Output = BigUint;
